@@ -19,9 +19,9 @@ func init() {
 		Assumptions: []string{"ids are disjoint from every value pool, so a hit is a trace of the entity", "under CascadeCreateUpdate dangling boss references are declared behaviour and excluded"},
 		Plan: func(tier core.Tier, seed int64) int {
 			if tier == core.Thorough {
-				return 48000 + c06SibCases*20 + 48*10 + c06RcCases*10 + c06SymCases*10
+				return 48000 + c06SibCases*20 + 48*10 + c06RcCases*10 + c06SymCases*10 + c06BigCases*4
 			}
-			return 720 + c06SibCases + 48 + c06RcCases + c06SymCases
+			return 720 + c06SibCases + 48 + c06RcCases + c06SymCases + c06BigCases
 		},
 		Run: func(c *core.Ctx, idx int) {
 			nHist := 720
@@ -39,6 +39,14 @@ func init() {
 			nRc := c06RcCases
 			if c.Tier == core.Thorough {
 				nRc *= 10
+			}
+			nSym := c06SymCases
+			if c.Tier == core.Thorough {
+				nSym *= 10
+			}
+			if idx >= nHist+nSib+nSelf+nRc+nSym {
+				c06Big(c, idx-nHist-nSib-nSelf-nRc-nSym)
+				return
 			}
 			if idx >= nHist+nSib+nSelf+nRc {
 				c06Symmetric(c, idx-nHist-nSib-nSelf-nRc)
@@ -174,7 +182,7 @@ func init() {
 				"sibling": {"data in both child stores"}, "sibling_delete": {"parent+A+B through parent", "parent+A+B through childA", "parent+A+B through childB", "parent+A through childA", "parent through parent"}}
 		},
 		MinCounters: func(core.Tier) map[string]int64 {
-			return map[string]int64{"deletes_scanned": 200, "recreated": 50, "sibling_deletes_scanned": 100, "self_fk_deletes_scanned": 50, "rc_only_deletes_scanned": 20}
+			return map[string]int64{"deletes_scanned": 200, "recreated": 50, "sibling_deletes_scanned": 100, "self_fk_deletes_scanned": 50, "rc_only_deletes_scanned": 20, "symmetric_link_transactions": 200, "cascades_over_hundreds_of_referrers": 4, "database_reopened": 500}
 		},
 	})
 }
